@@ -365,6 +365,8 @@ def main():
                 VIA_REINDEX = True
                 try:
                     d4, o4 = run_record(rec, kind)
+                except Exception as e:  # solving the longer model or reindexing it raised: the code's answer, not the harness's
+                    d4, o4 = [f'history-setup-raised-{type(e).__name__}'], {'error': str(e)[:200]}
                 finally:
                     VIA_REINDEX = False
                 out['n'] += 1
